@@ -191,7 +191,7 @@ def check_size(ps, c, rng, quick):
     z9 = np.zeros((3, 3))
     zN = np.zeros((N, N))
     ncmp = 0
-    for P in PARAMS:
+    for P in (PARAMS if N <= 12 else PARAMS[:2] + PARAMS[-3:-2]):          # the big sizes (prime factor >= 13) with three parameter sets
         r0, delta, L0, l0 = P
         gen = Scripted(1)
         # ---- plain FFT screen: every unit draw
@@ -293,6 +293,91 @@ def check_size(ps, c, rng, quick):
         if any(np.array_equal(scr[i], scr[j]) for i in range(3) for j in range(i + 1, 3)):
             bad.append(("%s:unseeded-calls-repeat-the-same-draws" % fn_.__name__, dict(N=N)))
     return bad, ncmp
+
+
+class ConstantGen(np.random.Generator):
+    """every deviate it hands out is the same number: the screen is then the SUM of all columns of the linear map, whatever
+    order, shapes or blocks the deviates are requested in (as long as every Fourier coefficient gets its own two deviates)"""
+
+    def __init__(self, value):
+        super().__init__(np.random.PCG64(0))
+        self.value = value
+        self.handed_out = 0
+
+    def normal(self, loc=0.0, scale=1.0, size=None):
+        n = int(np.prod(size)) if size is not None else 1
+        self.handed_out += n
+        return loc + scale * (np.full(size, self.value) if size is not None else self.value)
+
+    def standard_normal(self, size=None, *a, **k):
+        return self.normal(0.0, 1.0, size)
+
+
+def check_constant_draws(ps, sizes):
+    """protocol-independent and exact, for any size: all deviates equal to v gives v * (sum over all modes of s_k (cos - sin) pattern)"""
+    bad = []
+    n = 0
+    for N in sizes:
+        c = synth_case(N)
+        for P in (PARAMS[0], PARAMS[2]):
+            r0, delta, L0, l0 = P
+            ones = np.ones((N, N))
+            want1 = expected_hi(c, P, ones, ones)
+            for v in (1.0, -0.5):
+                got = np.asarray(ps.ft_phase_screen(r0, N, delta, L0, l0, seed=ConstantGen(v)), float)
+                n += 1
+                if got.shape != (N, N) or not np.allclose(got, v * want1, rtol=0, atol=1e-9 * np.abs(want1).max()):
+                    bad.append(("ft_phase_screen:sum-of-all-modes(equal-deviates)", dict(N=N, params=P, value=v, shape=list(got.shape),
+                                                                                        err=float(np.abs(got - v * want1).max() / np.abs(want1).max()) if got.shape == (N, N) else None)))
+                    return bad, n
+    return bad, n
+
+
+def synth_case(N):
+    """the model's tables for the plain screen from their closed form (checked against TLC's own tables for the sizes TLC printed)"""
+    k = np.arange(N)
+    f = k - N // 2
+    return dict(N=N, freq=f.tolist(), q=(f[:, None] ** 2 + f[None, :] ** 2).tolist(), dc=[N // 2, N // 2],
+                E=((-np.outer(f, f)) % N).tolist())
+
+
+def check_big_sizes(ps, printed, sizes):
+    """sizes far beyond TLC's (several hundred pixels): unit draws in the first, middle and LAST rows / columns of the coefficient array"""
+    bad = []
+    n = 0
+    for c in printed:                                     # the closed form IS the model
+        sc_ = synth_case(c["N"])
+        if any(sc_[k_] != c[k_] for k_ in ("freq", "q", "dc", "E")):
+            raise core.MachineryError("synth_case(%d) differs from FFTScreen.tla's tables" % c["N"])
+    P = PARAMS[0]
+    r0, delta, L0, l0 = P
+    for N in sizes:
+        c = synth_case(N)
+        s_ = amp_grid(c, P)
+        z = np.exp(2j * np.pi / N)
+        f = np.array(c["freq"])
+        gen = Scripted(1)
+        for k1 in sorted({0, 1, N // 2 - 1, 255, 256, 257, N - 65, N - 2, N - 1} & set(range(N))):
+            for k2 in (0, N // 3, N - 1):
+                for part in (0, 1):
+                    e = np.zeros((N, N))
+                    e[k1, k2] = 1.0
+                    a, b = (e, np.zeros((N, N))) if part == 0 else (np.zeros((N, N)), e)
+                    gen.queue = [a, b]
+                    try:
+                        got = np.asarray(ps.ft_phase_screen(r0, N, delta, L0, l0, seed=gen), float)
+                    except ProtocolChanged:
+                        return bad, n, "draw protocol differs"
+                    if gen.queue:
+                        return bad, n, "draw protocol differs"
+                    coef = (1.0 if part == 0 else 1j) * s_[k1, k2]
+                    want = np.real(coef * np.outer(z ** (f * f[k1] % N), z ** (f * f[k2] % N)))
+                    n += 1
+                    if got.shape != (N, N) or not np.allclose(got, want, rtol=0, atol=1e-9 * max(s_.max(), 1e-300)):
+                        bad.append(("ft_phase_screen:unit-draw-pattern:large-grid", dict(N=N, draw=[k1, k2], part="re" if part == 0 else "im",
+                                                                                        err=float(np.abs(got - want).max() / s_.max()) if got.shape == (N, N) else None)))
+                        return bad, n, None
+    return bad, n, None
 
 
 def int_seed_mode(ps, c, P, seed=5):
@@ -411,6 +496,19 @@ def run(run):
                 if rel < -1e-9:
                     run.violation("ft_sh_phase_screen:same-seed-coupling-lowers-structure-function", dict(N=c["N"], params=P, rel=rel),
                                   dict(kind="size", N=c["N"]))
+    with np.errstate(all="ignore"):
+        badk, nk = check_constant_draws(ps, (4, 8, 26, 34, 96, 300, 320) if quick else (4, 8, 12, 26, 34, 58, 96, 300, 320, 384, 640))
+    for key, detail in badk:
+        run.violation(key, detail, dict(kind="constant"))
+    total += nk
+    with np.errstate(all="ignore"):
+        badb, nbig, note = check_big_sizes(ps, r.printed, (320,) if quick else (320, 384, 300))
+    for key, detail in badb:
+        run.violation(key, detail, dict(kind="big"))
+    if note:
+        run.drift("draw-protocol-differs-from-transcription", dict(where="large grids", why=note))
+    total += nbig
+    run.aux["large_grid_unit_draws"] = nbig
     run.traces += total + ncov
     if ncov and unmeasured == ncov:
         raise core.MachineryError("no ensemble covariance could be measured (deviates not drawn through the Generator?)")
@@ -430,6 +528,17 @@ def replay(run, case):
     core.import_aotools()
     from aotools.turbulence import phasescreen as ps
     warnings.simplefilter("ignore")
+    if case.get("kind") == "constant":
+        with np.errstate(all="ignore"):
+            for key, detail in check_constant_draws(ps, (4, 8, 26, 34, 96, 300, 320))[0]:
+                run.violation(key, detail, case)
+        return
+    if case.get("kind") == "big":
+        r0 = core.run_tlc("FFTScreen", "FFTScreen_quick.cfg", coverage=False, timeout=600)
+        with np.errstate(all="ignore"):
+            for key, detail in check_big_sizes(ps, r0.printed, (320,))[0]:
+                run.violation(key, detail, case)
+        return
     r = core.run_tlc("FFTScreen", "FFTScreen_thorough.cfg", coverage=False, timeout=600)
     rng = np.random.default_rng(run.seed)
     for c in r.printed:
